@@ -35,7 +35,7 @@ def splitAt (cons : List (Pt × Pt)) (p : Pt) : List (Pt × Pt) :=
 a new vertex on a constraint piece replaces it by its two halves (C04). Returns the handle. -/
 def insert (a : AState) (p : Pt) (d : Nat) : AState × Nat :=
   match a.find p with
-  | some i => ({ a with verts := a.verts.set! i (p, d) }, i)
+  | some i => ({ a with verts := a.verts.setIfInBounds i (p, d) }, i)
   | none => ({ verts := a.verts.push (p, d), cons := splitAt a.cons p }, a.verts.size)
 
 /-- `remove i`: returns the stored data, the last vertex moves into slot `i`, constraint pieces
@@ -43,8 +43,8 @@ ending in the removed vertex disappear (C05, C11). -/
 def remove (a : AState) (i : Nat) : AState × Nat :=
   let p := a.posOf i
   let d := a.dataOf i
-  let last := a.verts.back!
-  let vs := (a.verts.set! i last).pop
+  let last := a.verts.back?.getD (⟨0, 0⟩, 0)
+  let vs := (a.verts.setIfInBounds i last).pop
   ({ verts := vs, cons := a.cons.filter fun c => !(c.1 == p || c.2 == p) }, d)
 
 def clear (_ : AState) : AState := empty
